@@ -135,6 +135,19 @@ pub fn dispatch(op: &str, a: &[Val]) -> Option<Val> {
         "z.peast" => (|| Some(enc_fo(FixedOffset::east(a.get(0)?.i32()?))))(),
         #[allow(deprecated)]
         "z.pwest" => (|| Some(enc_fo(FixedOffset::west(a.get(0)?.i32()?))))(),
+        // direct constructors (from_naive_utc_and_offset, the deprecated from_utc / from_local) and timezone()
+        "z.mk" => (|| {
+            let o = off(a.get(0)?)?; let u = dec_ndt(a.get(1)?)?;
+            let z = DateTime::<FixedOffset>::from_naive_utc_and_offset(u, o);
+            #[allow(deprecated)]
+            let z2 = DateTime::<FixedOffset>::from_utc(u, o);
+            Some(vtup(vec![enc_z(z), vint(z.timezone().local_minus_utc()), enc_z(z2)]))
+        })(),
+        #[allow(deprecated)]
+        "z.pfromlocal" => (|| {
+            let o = off(a.get(0)?)?; let l = dec_ndt(a.get(1)?)?;
+            Some(enc_z(DateTime::<FixedOffset>::from_local(l, o)))
+        })(),
         _ => return None,
     };
     Some(r.unwrap_or_else(bad))
